@@ -1,5 +1,5 @@
 """dns.encode_name_wire_form: the real DNS::encode_domain_name on every legal textual name of at most L characters (quick 8,
-thorough 14): non-empty labels separated by single dots, with or without the trailing dot of the absolute form.  The output is
+thorough 11): non-empty labels separated by single dots, with or without the trailing dot of the absolute form.  The output is
 the RFC 1035 3.1 wire form: length-prefixed labels, exactly one zero octet, and it is the last one; the labels spell the name."""
 import os
 
@@ -63,7 +63,7 @@ void h(void) {
 
 
 def generate(outdir, tier):
-    L = 14 if tier == 'thorough' else 8
+    L = 11 if tier == "thorough" else 8
     p = os.path.join(outdir, 'encode_domain_name.unit')
     with open(p, 'w') as f:
         f.write(T % dict(L=L, unwind=2 * L + 8))
